@@ -330,6 +330,12 @@ def stepM (ps : PState) (stepIdx : Nat) (toks : List String) : PState × StepOut
         let (st, d) ← Dense.safeT ps.st t ax
         Dense.transpose st d)
     | _, _ => (ps.failVar, .fields "r=skip")
+  | ["fmt", v, _] =>
+    -- formatting reads the tensor; the text itself is compared by the harness with the text the same tensor gave
+    -- before (sequentially, in the prefix of a goroutine set)
+    match ps.obj v with
+    | some _ => (ps, .fields "r=ok")
+    | none => (ps, .fields "r=skip")
   | ["roll", v, axis, start, safe] =>
     match ps.obj v, axis.toInt?, start.toInt? with
     | some (id, t), some axis, some start =>
